@@ -710,5 +710,59 @@ class LazyPropertySplit(common.Suite):
         return f"{case['driver']}:log={case['logint']}"
 
 
+class UnsetDefaultObserver(common.Suite):
+    """`sim.default_logger = None` (documented: "None to unset") before a run: no logger, hence no header and NO ROWS — rows
+    without the header that precedes them are not a log. The same for the default trajectory and restart observers: an
+    observer that was unset is not called any more. Oracle only."""
+
+    name = "unset-default-observer"
+
+    def cases(self, rng, tier):
+        for driver in ("can", "fb"):
+            for which in ("default_logger", "default_trajectory", "default_restart"):
+                if driver == "fb" and which == "default_restart":
+                    continue
+                for when in ("before-first-run", "between-runs"):
+                    yield {"driver": driver, "which": which, "when": when, "seed": rng.randrange(1, 2**31)}
+
+    def real(self, case):
+        E = env()
+        np = E["np"]
+        atoms = E["bulk"]("Cu", cubic=True)
+        atoms.calc = E["Harm"]()
+        files = {"default_logger": io.StringIO(), "default_trajectory": io.StringIO(), "default_restart": io.StringIO()}
+        kw = dict(logfile=files["default_logger"], trajectory=files["default_trajectory"], logging_interval=1, seed=case["seed"])
+        with warnings.catch_warnings():
+            warnings.simplefilter("ignore")
+            if case["driver"] == "can":
+                sim = E["Can"](atoms, temperature=300.0, restart_file=files["default_restart"],
+                               default_displacement_move=E["DisplacementMove"](np.arange(len(atoms))), **kw)
+            else:
+                sim = E["FB"](atoms, delta=0.05, temperature=300.0, **kw)
+            sim._executed = []
+            if case["when"] == "between-runs":
+                sim.run(2)
+            size0 = len(files[case["which"]].getvalue())
+            setattr(sim, case["which"], None)
+            sim.run(2)
+        text = files[case["which"]].getvalue()
+        others = {k: len(v.getvalue()) for k, v in files.items() if k != case["which"]}
+        return {"grew": len(text) - size0, "size0": size0, "still_attached": case["which"] in sim.file_manager.observers,
+                "others": others}
+
+    def oracle(self, case, obs):
+        if "exception" in obs:
+            return [("unset:exception:" + obs["exception"], obs.get("message", "") + obs.get("trace", "")[-300:])]
+        out = []
+        if obs["grew"] != 0:
+            out.append((f"unset:{case['which']}:still-written:{case['when']}",
+                        f"{case['driver']}: after `sim.{case['which']} = None` the file grew by {obs['grew']} bytes "
+                        f"(observer still attached: {obs['still_attached']})"))
+        return out
+
+    def classify(self, case, obs):
+        return f"{case['driver']}:{case['which']}:{case['when']}"
+
+
 def suites(tier):
-    return [RunSplit(), NoLoggerSplit(), fbd.SplitView(), LazyPropertySplit()]
+    return [RunSplit(), NoLoggerSplit(), fbd.SplitView(), LazyPropertySplit(), UnsetDefaultObserver()]
